@@ -7,19 +7,21 @@
 (* replays on package rlp.                                                               *)
 EXTENDS RLP, Json, TLC
 
-CONSTANTS MaxLen,        \* longest alphabet prefix
+CONSTANTS FirstSyms,     \* first bytes explored by this run (a partition of Alphabet keeps runs small)
+          MaxLen,        \* longest alphabet prefix
           FillBelow      \* a fill block may follow prefixes shorter than this (0: never)
 
 VARIABLES pre, fill      \* fill = <<n, b>>, n = 0: none
 
 Alphabet == {0, 1, 55, 56, 127, 128, 129, 130, 183, 184, 185, 191, 192, 193, 194, 247, 248, 249, 255}
 Fills    == {<<n, b>> : n \in {55, 56, 255, 256}, b \in {1, 128}}
+ASSUME FirstSyms \subseteq Alphabet
 
 bs == pre \o Fill(fill[1], fill[2])
 
 Init == pre = <<>> /\ fill = <<0, 0>>
 Next == /\ fill[1] = 0
-        /\ \/ Len(pre) < MaxLen /\ \E t \in Alphabet : pre' = Append(pre, t) /\ UNCHANGED fill
+        /\ \/ Len(pre) < MaxLen /\ \E t \in (IF Len(pre) = 0 THEN FirstSyms ELSE Alphabet) : pre' = Append(pre, t) /\ UNCHANGED fill
            \/ Len(pre) < FillBelow /\ \E f \in Fills : fill' = f /\ UNCHANGED pre
 MCSpec == Init /\ [][Next]_<<pre, fill>>
 
